@@ -9,8 +9,9 @@ prefix token streams: `d <readable> <n> (<name> <node>)^n | f <exec> <content> |
 * `new <upDirs> <wd> <path>*`            → `ok` | `err`           (`NewOutputHierarchy`)
 * `mkparents <tree>`                     → `ok <tree>` | `err`    (`CreateParentDirectories`; tree printed with entries sorted by name)
 * `upload <force> <faults> <tree>`       → `<ok|err> F <files> S <symlinks> D <dirs>` (`UploadOutputs`; all lists sorted)
-  with `faults = 1` the CAS rejects file contents whose id is `9 mod 10` and every
-  Directory/Tree blob that contains an entry named `PUTFAIL`.
+  with `faults = 1|2` the CAS rejects file contents whose id is `9 mod 10` and every
+  Directory/Tree blob that contains an entry named `PUTFAIL`, and `Readlink` fails for symlinks
+  whose target is `RLFAIL`.
 -/
 namespace BbRe.Drivers.Outputs
 open BbRe.Outputs BbRe.Drivers
@@ -98,6 +99,8 @@ def showRes (r : Res) : String :=
 
 def marker : Name := [80, 85, 84, 70, 65, 73, 76]   -- "PUTFAIL"
 
+def rlMarker : Str := [82, 76, 70, 65, 73, 76]   -- "RLFAIL"
+
 def hasMarker (m : DirMsg) : Bool :=
   m.files.any (fun e => e.1 == marker) || m.dirs.any (fun e => e.1 == marker) || m.symlinks.any (fun e => e.1 == marker)
 
@@ -106,8 +109,14 @@ def faultyEnv : Env where
     | .file c => c % 10 == 9
     | .dirmsg m => hasMarker m
     | .tree ms => ms.any hasMarker
+  readlinkFails t := t == rlMarker
 
-def okEnv : Env := ⟨fun _ => false⟩
+def okEnv : Env := { putFails := fun _ => false }
+
+/-- faults field of the `upload` op: 0 = none, 1 = faults, 2 = faults with unreadable directories
+realised as enter failures by the harness (same model behaviour) -/
+def parseFaults (s : String) : Option Bool :=
+  if s = "0" then some false else if s = "1" ∨ s = "2" then some true else none
 
 abbrev State := Option Hierarchy
 
@@ -128,7 +137,7 @@ def step (st : State) (ws : List String) : State × String :=
       | .error _ => (st, "err")
     | _, _ => (st, "bad-op")
   | "upload" :: force :: faults :: tree =>
-    match st, parseBool force, parseBool faults, parseNode tree with
+    match st, parseBool force, parseFaults faults, parseNode tree with
     | some h, some force, some faults, some (root, []) =>
       (st, showRes (h.uploadOutputs (if faults then faultyEnv else okEnv) force root))
     | _, _, _, _ => (st, "bad-op")
